@@ -119,20 +119,51 @@ def c08(env, thorough):
         ('update-with-leftovers', STD_SETUP, leftovers, {'op': 'update', 'user': 'b', 'pw': 'newpw'}, 'b.user', b'aux\n'),
         ('update-admin-with-leftovers', STD_SETUP, leftovers, {'op': 'update', 'user': 'root', 'pw': 'newpw'}, 'root.admin', b''),
     ]
+    # the commit step itself fails (rename answers EXDEV / EIO): whatever the code does instead, a crash
+    # during it must still leave the old or the new complete record
+    for errno in ('EXDEV', 'EIO'):
+        histories += [
+            ('update-rename-fails-%s' % errno, STD_SETUP, {}, {'op': 'update', 'user': 'b', 'pw': 'newpw'}, 'b.user', aux3, 'renameat:' + errno),
+            ('add-rename-fails-%s' % errno, STD_SETUP, {}, {'op': 'add', 'user': 'a', 'pw': 'newpw'}, 'a.user', None, 'renameat:' + errno),
+        ]
     # auxiliary data around the usual buffer sizes (a record that just fits / just exceeds a 4 KiB or 64 KiB buffer)
     sizes = [4000, 4023, 4024, 4025, 4096, 8192] + ([32768, 65535, 65536, 65537] if thorough else [])
     for n in sizes:
         histories.append(('update-aux-%d' % n, STD_SETUP, {}, {'op': 'update', 'user': 'b', 'pw': 'newpw'}, 'b.user', bytes((i * 31 + 7) % 251 for i in range(n))))
-    for name, setup, files, step, target, aux in histories:
+    for hist in histories:
+        name, setup, files, step, target, aux = hist[:6]
+        fault = hist[6] if len(hist) > 6 else None
         base = os.path.join(env.work, 'c08', 'store')
-        build_tree(env, base, setup, files)
-        if aux:
-            append_aux(base, target, aux)
+
+        def fresh():
+            build_tree(env, base, setup, files)
+            if aux:
+                append_aux(base, target, aux)
+        fresh()
+        inject = None
+        if fault:
+            # position of the first rename inside the operation, from a fault-free run
+            call, errno = fault.split(':')
+            run0 = engine.run_driver(env.drv, env.work, {'base': base, 'snap': True, 'steps': [step]}, tag='c08b')
+            mk0, tid0 = engine.marks(run0.calls)
+            b0 = [i for i, t in mk0 if t == 'B:0'][0]
+            nth = 0
+            for i, c in enumerate(run0.calls):
+                if c.name == call:
+                    nth += 1
+                    if i > b0 and c.tid == tid0:
+                        break
+            inject = '%s:error=%s:when=%d' % (call, errno, nth)
+            fresh()
         f0 = read_tree(base)
         fs = FS(base)
-        run = engine.run_driver(env.drv, env.work, {'base': base, 'snap': True, 'steps': [step]}, tag='c08')
-        if run.report is None or not run.report[0]['ok']:
+        run = engine.run_driver(env.drv, env.work, {'base': base, 'snap': True, 'steps': [step]}, tag='c08', inject=inject)
+        if fault:
+            if run.report is None or len([c for c in run.calls if c.injected]) != 1:
+                raise TraceError('history %s: the injected failure did not land: %s' % (name, run.stderr[-300:]))
+        elif run.report is None or not run.report[0]['ok']:
             raise TraceError('history %s: operation failed on the unchanged path: %s %s' % (name, run.report, run.stderr[-500:]))
+        op_ok = bool(run.report[0]['ok'])
         points, stats, acked = engine.replay(base, fs, run)
         env.cov['traces_validated_against_impl'] += stats['validated']
         if stats['capped']:
@@ -146,7 +177,11 @@ def c08(env, thorough):
         # followed by exactly the auxiliary bytes the old file carried
         new_line, _, new_rest = f1.get(target, b'').partition(b'\n')
         old_line, _, old_rest = f0.get(target, b'').partition(b'\n')
-        if len(new_line.split(b':')) != 5 or new_line == old_line or (kind == 'update' and new_rest != old_rest) or (kind != 'update' and new_rest != b''):
+        if not op_ok:
+            # the operation reported its failure: the record must be what it was
+            if f1.get(target) != f0.get(target):
+                env.violation('failed-operation-changed-record:%s' % kind, '[history %s] the operation reported failure but %s differs from its previous content' % (name, target), {'history': name, 'step': step})
+        elif len(new_line.split(b':')) != 5 or new_line == old_line or (kind == 'update' and new_rest != old_rest) or (kind != 'update' and new_rest != b''):
             env.violation('completed-record-wrong:%s' % kind,
                           '[history %s] the record the completed operation left in %s is not "new record line + the %d auxiliary bytes of the old file": %d bytes follow the first line (first difference near byte %d), first line %r' % (
                               name, target, len(old_rest), len(new_rest), next((i for i in range(min(len(new_rest), len(old_rest))) if new_rest[i] != old_rest[i]), min(len(new_rest), len(old_rest))), new_line[:40]),
@@ -184,7 +219,8 @@ def c08(env, thorough):
                 viol('recovery-panic', 'store code panicked on the post-crash directory: ' + o['panic'])
                 continue
             cur = t.get(target)
-            allowed = [f1[target]]
+            newfile = f1.get(target) if op_ok else None   # an operation that reported failure has no "new" record
+            allowed = [newfile] if newfile is not None else []
             if kind in ('add', 'init'):
                 allowed += [None, b'']
                 if target in f0:
@@ -197,7 +233,7 @@ def c08(env, thorough):
                 which = 'absent'
             elif cur == b'':
                 which = 'empty'
-            elif cur == f1[target]:
+            elif newfile is not None and cur == newfile:
                 which = 'new'
             elif target in f0 and cur == f0[target]:
                 which = 'old'
